@@ -52,6 +52,7 @@ Aspects == CASE Focus = "all"    -> AllAspects
              [] Focus = "C10"    -> {"snapshot", "serial", "ledger", "total", "peers", "links", "noncefull", "reg", "withdraw", "time"}
              [] Focus = "C10race" -> {"total", "nonce", "snapshot", "reads"}
              [] Focus = "C13race" -> {"total", "reads"}
+             [] Focus = "C09race" -> {"reg"}
              [] Focus = "C01race" -> {"total"}
              [] Focus = "C05race" -> {"nonce"}
              [] Focus = "C07race" -> {"withdraw", "nonce"}
